@@ -169,6 +169,9 @@ pub fn check(case: &Case, l: &mut Local) -> Verdict {
         if rng(m.group(0)) != Some((m.range.start, m.range.end)) || m.start() != m.range.start || m.end() != m.range.end || m.range() != m.range {
             return Verdict::Fail("group(0)/start()/end()/range() disagree with range".into());
         }
+        if h.is_char_boundary(m.range.start) && h.is_char_boundary(m.range.end) && m.range.end <= h.len() && m.as_str(h) != &h[m.range.start..m.range.end] {
+            return Verdict::Fail("as_str(text) is not the text of the match range".into());
+        }
         for i in 1..=n {
             if rng(m.group(i)) != rng(m.captures[i - 1].clone()) {
                 return Verdict::Fail(format!("group({}) != captures[{}]", i, i - 1));
